@@ -50,8 +50,27 @@ func checkC08(c *Ctx) {
 	// ---- C08-funnel
 	if m.tdDefer != nil {
 		risky := func(in ssa.Instruction) bool {
-			switch in.(type) {
-			case *ssa.Call, *ssa.Go, *ssa.Return, *ssa.Panic, *ssa.RunDefers:
+			switch x := in.(type) {
+			case *ssa.Call:
+				// set-up that cannot fail, block or call back: channel / context construction, time, logging, atomics
+				cc := x.Common()
+				if _, isB := cc.Value.(*ssa.Builtin); isB {
+					return false
+				}
+				if cc.IsInvoke() && an.TypeIs(cc.Value.Type(), "github.com/hashicorp/go-hclog", "Logger") {
+					return false
+				}
+				if f := cc.StaticCallee(); f != nil {
+					switch an.FuncPkgPath(f) + "." + f.Name() {
+					case "context.WithCancel", "context.Background", "context.TODO", "time.Now", "time.Since":
+						return false
+					}
+					if an.FuncPkgPath(f) == "sync/atomic" {
+						return false
+					}
+				}
+				return true
+			case *ssa.Go, *ssa.Return, *ssa.Panic, *ssa.RunDefers:
 				return true
 			case *ssa.Defer:
 				return in != ssa.Instruction(m.tdDefer)
@@ -257,20 +276,24 @@ func checkC08(c *Ctx) {
 				case !isConst || k != 1:
 					R.Fail("C08-paired", key, c.pos(ci), "Add argument is not the constant 1")
 				default:
-					// next go in the same block, no return in between
-					p := an.After(ci)
-					var g *ssa.Go
-					for i := p.I; i < len(p.B.Instrs); i++ {
-						if x, ok := p.B.Instrs[i].(*ssa.Go); ok {
-							g = x
-							break
-						}
-						if _, ok := p.B.Instrs[i].(ssa.CallInstruction); ok {
-							break
-						}
-					}
+					// after the Add every path starts the handler goroutine before it can leave the iteration
+					// (bookkeeping such as logging or an atomic counter may sit in between)
+					g := m.reqGo
 					if g == nil || goTarget(g) == nil {
-						R.Fail("C08-paired", key, c.pos(ci), "Add(1) is not immediately followed by the go statement of the handler goroutine")
+						R.Fail("C08-paired", key, c.pos(ci), "no go statement of a handler goroutine in the read loop")
+						break
+					}
+					leave := or(an.IsReturn, func(in ssa.Instruction) bool { return in.Block() == m.loopHead && an.PointOf(in).I == 0 })
+					if w := an.Search(an.After(ci), leave, isInstr(g)); w != nil {
+						R.Fail("C08-paired", key, c.pos(ci), "Add(1) is not always followed by the go statement of the handler goroutine: the teardown's Wait would never return: "+c.trail(w))
+						break
+					}
+					if w := an.Search(an.Point{B: m.loopHead, I: 0}, isInstr(g), isInstr(ci)); w != nil {
+						R.Fail("C08-paired", key, c.pos(g), "the handler goroutine can be started without a preceding requestsWg.Add(1): "+c.trail(w))
+						break
+					}
+					if an.Search(an.After(ci), isInstr(ci), isInstr(g)) != nil {
+						R.Fail("C08-paired", key, c.pos(ci), "Add(1) can run twice before one handler goroutine is started")
 						break
 					}
 					t := goTarget(g)
@@ -518,6 +541,12 @@ func checkC09(c *Ctx) {
 			continue
 		}
 		arg := an.StripX(ci.Common().Args[0])
+		// conn.connID of the conn built in this iteration: written once, by newConn, from its connID parameter (C09-immutable)
+		if base, ok := fieldLoad(arg, G, "conn", "connID"); ok {
+			if ex, isEx := an.StripX(base).(*ssa.Extract); isEx && ex.Tuple == ssa.Value(m.newConn) && ex.Index == 0 {
+				arg = an.StripX(idArg)
+			}
+		}
 		R.Check(arg == an.StripX(idArg), "C09-onclose", fname(m.teardown)+": onCloseHandler(id)", c.pos(ci),
 			"argument is a per-iteration copy of the very value given to newConn", "OnClose receives "+an.Path(ci.Common().Args[0])+", not the ID given to newConn for this connection")
 	}
@@ -666,6 +695,16 @@ func checkC12(c *Ctx) {
 				if cc.IsInvoke() && an.TypeIs(cc.Value.Type(), "github.com/hashicorp/go-hclog", "Logger") {
 					return false
 				}
+				// bookkeeping that cannot block or call back into user code: atomic counters, time, formatting
+				if f := cc.StaticCallee(); f != nil {
+					switch an.FuncPkgPath(f) {
+					case "sync/atomic", "time", "fmt", "strconv":
+						return false
+					}
+				}
+				if _, isB := cc.Value.(*ssa.Builtin); isB {
+					return false
+				}
 				return true
 			}
 			if w := an.Search(an.After(d), notLog, nil); w != nil && ok {
@@ -726,12 +765,20 @@ func checkC12(c *Ctx) {
 		}
 		ok := true
 		why := ""
+		// conditions already decided when the place is reserved (e.g. `stopping == false`): a later test of the
+		// same value can only go the same way
+		known := map[string]bool{}
+		for _, fct := range an.BranchFacts(ci.Block()) {
+			if key, neg := an.CondKey(fct.Cond); key != "" {
+				known[key] = fct.True != neg
+			}
+		}
 		// every go of a connection goroutine is preceded by the Add
-		if w := an.Search(an.Point{B: head, I: 0}, isInstr(m.connGo), isInstr(at)); w != nil && head != nil {
+		if w := an.SearchCorr(an.Point{B: head, I: 0}, isInstr(m.connGo), isInstr(at), nil); w != nil && head != nil {
 			ok, why = false, "a connection goroutine can be started without a preceding connWg.Add(1): "+c.trail(w)
 		}
 		if notHeld != nil {
-			if w := an.Search(an.Point{B: notHeld, I: 0}, isInstr(m.connGo), isInstr(at)); w != nil {
+			if w := an.SearchCorr(an.Point{B: notHeld, I: 0}, isInstr(m.connGo), isInstr(at), nil); w != nil {
 				ok, why = false, "a connection goroutine can be started although no place was reserved: "+c.trail(w)
 			}
 		}
@@ -739,14 +786,14 @@ func checkC12(c *Ctx) {
 		if w := an.Search(held, isRel, or(isInstr(m.connGo))); w != nil {
 			// a release is fine only if after it the go is not reachable without a new Add
 			for _, r := range releases {
-				if w2 := an.Search(an.After(r), isInstr(m.connGo), isInstr(at)); w2 != nil {
+				if w2 := an.SearchCorr(an.After(r), isInstr(m.connGo), isInstr(at), nil); w2 != nil {
 					ok, why = false, "after giving the place back (connWg.Done) the connection goroutine can still be started: "+c.trail(w2)
 				}
 			}
 		}
 		// after an Add, every path reaches the go or a release before returning or iterating again
 		leak := or(an.IsReturn, func(in ssa.Instruction) bool { return head != nil && in.Block() == head && an.PointOf(in).I == 0 })
-		if w := an.Search(held, leak, or(isInstr(m.connGo), isRel)); w != nil {
+		if w := an.SearchCorr(held, leak, or(isInstr(m.connGo), isRel), known); w != nil {
 			ok, why = false, "a path after connWg.Add(1) neither starts the connection goroutine nor gives the place back: Stop would wait forever: "+c.trail(w)
 		}
 		R.Check(ok, "C12-done-last", key, c.pos(ci), sprintf("every connection goroutine start is preceded by this Add(1); %d release site(s) give the place back on paths that start no goroutine", len(releases)), why)
@@ -778,10 +825,16 @@ func checkC12(c *Ctx) {
 			cond, neg := an.Not(fct.Cond)
 			if c.isShutdownErrAtom(cond) {
 				x, trueMeansNil, _ := an.NilCheck(cond)
-				_ = x
+				// the shutdown state must be READ inside the critical section, not just tested there
+				if ec, isCall := an.Strip(x).(*ssa.Call); isCall && !runLS[ec].Holds("s.mu", false) {
+					continue
+				}
 				pol := fct.True != neg
 				if pol == trueMeansNil { // Err() == nil
-					if iff := condIfOf(cond); iff != nil && runLS[iff].Holds("s.mu", false) {
+					for _, iff := range condIfsOf(cond) {
+						if !runLS[iff].Holds("s.mu", false) || !iff.Block().Dominates(add.Block()) {
+							continue
+						}
 						// from the not-shut-down edge to the Add the lock is never released
 						unlock := callPred(func(cc *ssa.CallCommon) bool { k, _ := an.LockOp(cc); return k == "Unlock" || k == "RUnlock" })
 						var live *ssa.BasicBlock
